@@ -209,7 +209,7 @@ def run(ctx):
     if big:
         cs = []
         for n in (1, 3):
-            r = perform_kramers_kronig_test(data, test="cnls", num_RC=6, num_procs=n)
+            r = perform_kramers_kronig_test(data, test="cnls", num_RC=6, num_F_ext_evaluations=0, num_procs=n)
             cs.append(ksig(r))
             ctx.note_case(("kk-cnls", "procs", n))
         if len(set(cs)) != 1:
